@@ -135,6 +135,13 @@ Definition lazy_run (p : pipeline) (o : str) (kw : alist) (full dagon : bool) : 
         end
     end.
 
+(* Pipeline.run since the repair "validate the keyword arguments of Pipeline.run before executing anything" *)
+Definition lazy_run_checked (p : pipeline) (o : str) (kw : alist) (full dagon : bool) : result loutcome * lstate :=
+  match run_precheck p o kw with
+  | Err e => (Err e, linit kw)
+  | Ok _ => lazy_run p o kw full dagon
+  end.
+
 (* ---------- evaluation ---------- *)
 Record estate := { eheap : heap; elog : list (nat * call) }.   (* the log also remembers which node called *)
 
